@@ -588,6 +588,27 @@ var scriptPairs = [][2]string{
 	{"OP_RETURN", "OP_1"},
 	{"OP_DIV OP_3 OP_EQUAL", "OP_10 OP_3"},
 	{"OP_DIV OP_3 OP_EQUAL", "OP_10 OP_0"},
+	{"OP_RIPEMD160 OP_SIZE OP_NIP OP_16 OP_4 OP_ADD OP_EQUAL", "OP_12"},
+	{"OP_SHA1 OP_SIZE OP_NIP OP_16 OP_4 OP_ADD OP_EQUAL", "OP_13"},
+	{"OP_HASH256 OP_SIZE OP_NIP OP_16 OP_16 OP_ADD OP_EQUAL", "OP_14"},
+	hashSweep,
+}
+
+// hashSweep: every hash opcode (and a few of every other class) in one script with a fixed verdict; several
+// goroutines run it in every round, so state shared between executions behind any of them is touched concurrently
+var hashSweep = [2]string{"OP_DUP OP_RIPEMD160 OP_SWAP OP_DUP OP_SHA1 OP_SWAP OP_DUP OP_SHA256 OP_SWAP OP_DUP OP_HASH160 OP_SWAP OP_HASH256 " +
+	"OP_SIZE OP_NIP OP_16 OP_16 OP_ADD OP_EQUALVERIFY OP_SIZE OP_NIP OP_16 OP_4 OP_ADD OP_EQUALVERIFY OP_SIZE OP_NIP OP_16 OP_16 OP_ADD OP_EQUALVERIFY " +
+	"OP_TOALTSTACK OP_FROMALTSTACK OP_CAT OP_SIZE OP_NIP OP_16 OP_16 OP_ADD OP_8 OP_ADD OP_EQUAL", "0102030405060708090a"}
+
+func sweepJob() job {
+	lock, err1 := bscript.NewFromASM(hashSweep[0])
+	unlock, err2 := bscript.NewFromASM(hashSweep[1])
+	if err1 != nil || err2 != nil {
+		panic(fmt.Sprint(err1, err2))
+	}
+	return job{kind: "script-only", opts: func() []interpreter.ExecutionOptionFunc {
+		return []interpreter.ExecutionOptionFunc{interpreter.WithScripts(lock, unlock), interpreter.WithAfterGenesis(), interpreter.WithForkID()}
+	}}
 }
 
 func scriptJob(r *common.Rand) job {
@@ -624,7 +645,15 @@ func engineRound(seed uint64, sameTx bool) EngineRound {
 	var jobs []job
 	var unit []int // unit index of every job
 	target := g * (1 + r.Intn(3))
-	for nu := 0; len(jobs) < target; nu++ {
+	nu0 := 0
+	if !sameTx {
+		for ; nu0 < g; nu0++ { // one hash-sweep unit per goroutine
+			jobs = append(jobs, sweepJob())
+			unit = append(unit, nu0)
+		}
+		target += g
+	}
+	for nu := nu0; len(jobs) < target; nu++ {
 		var u []job
 		if r.Chance(60) || sameTx {
 			u = p2pkhJobs(r)
